@@ -232,20 +232,21 @@ def rule_day(form, a, b, c, y):
     doy0 = cal.rd(y, a, 1) - cal.rd(y, 1, 1)
     days = [d for d in range(cal.dim(y, a)) if (cal.weekday(y, a, 1 + d) + 1) % 7 == c]
     return doy0 + (days[-1] if b == 5 else days[b - 1])
-def check_footer_panel():
-    """lookups around the rule instants of near, seam and far years in zones made of one recorded transition plus a footer"""
+def check_footer_panel(base_year=1990):
+    """lookups around the rule instants of near, seam and far years in zones made of one recorded transition (June 1 of
+    base_year) plus a footer"""
     lib()
-    return common.isolated(_check_footer_panel, timeout=300)
-def _check_footer_panel():
+    return common.isolated(_check_footer_panel, base_year, timeout=300)
+def _check_footer_panel(base_year=1990):
     for footer, so, do, rs, re_ in FOOTER_PANEL:
-        u0 = cal.sec(1990, 6, 1, 0, 0, 0)
+        u0 = cal.sec(base_year, 6, 1, 0, 0, 0)
         z = {"N": 2, "T": 2, "off": [so, do], "dst": [0, 1], "abbr": [0, 4], "default": 0, "unix": [-(1 << 40), u0], "type": [0, 0],
              "chars": _panel_chars(footer)}
         img = tzif(z, footer)
         h = lib().tzr_load(img, ctypes.c_size_t(len(img)))
         if not h: return "TimeZoneInfo::Load rejects a zone with footer %r" % footer
         try:
-            for y in (1991, 2000, 2024, 2389, 2390, 2391, 2392, 2400, 2790, 2791, 2792, 9999, 1000003, 292277026000):
+            for y in [base_year + k for k in (1, 10, 34, 399, 400, 401, 402, 410, 800, 801, 802)] + [2024, 9999, 1000003, 292277026000]:
                 j = cal.sec(y, 1, 1, 0, 0, 0)
                 s = j + rule_day(rs[0], rs[1], rs[2], rs[3], y) * 86400 + rs[4] - so
                 e = j + rule_day(re_[0], re_[1], re_[2], re_[3], y) * 86400 + re_[4] - do
